@@ -64,4 +64,10 @@ CLAIMS.update({
         "note": TB,
     },
 })
+CLAIMS.update({
+    "C20": {
+        "text": "Theorems foreground_does_not_wait (the hit path spawns at most one background program, only on the stale-while-revalidate branch, performs no origin call itself before returning and marks the response STALE; what it spawns is backgroundRevalidate for the client's request plus the stored validators), one_background_request (that program sends exactly one origin request, first, with the configured deadline, then only store operations, spawns nothing and always ends), timeout_defaulting (positive setting kept, non-positive → 5 s, from the regenerated constant). PARTIAL: detachment, cancellation at the deadline and goroutine quiescence are observed under testing/synctest for latencies 0 … beyond the timeout / never, all outcomes, all timeout settings and caller cancellation; not proved.",
+        "note": TB + " Not modelled: the Go scheduler, context cancellation.",
+    },
+})
 NOT_APPLICABLE = {("C%02d" % i): "check not built yet (work in progress; DESIGN.md §10 gives the order of construction)" for i in range(1, 21)}
